@@ -8,10 +8,12 @@ CONSTANTS
   WinLock = TRUE
   Fault = "none"
   ReadPolicy = "lazy"
+  StrictBackend = TRUE
+  DrainAfterDecode = TRUE
   Modes <- ModesCt
   Levels <- LevelsOne
   Bits <- BitsOne
 
-INVARIANTS DictionariesEqual HeadDecodable ReadEqualsWrite InOrder NoInterleave NoDecodeFailure WindowIsSuffix NoWindowWithoutTakeover
+INVARIANTS NoReaderRefused DictionariesEqual HeadDecodable ReadEqualsWrite InOrder NoInterleave NoDecodeFailure WindowIsSuffix NoWindowWithoutTakeover
 CONSTRAINT GenPrint
 CHECK_DEADLOCK FALSE
